@@ -574,6 +574,10 @@ class Gen:
         body = self.rewrite_body(body, relsrc, key, c, mut_self)
         if pre_lets:
             body = "{ " + " ".join(pre_lets) + body[1:]
+        if self.vacuity and not c.external_body:
+            # reachability probe: with only the preconditions (and the broadcast axioms) in
+            # scope, `false` must not be provable
+            body = "{ assert(false);" + body[1:]
         h = hashlib.sha256(it.full_text().encode()).hexdigest()[:16]
         rec["sha"] = h
         rec["kind"] = "fn"
@@ -584,8 +588,6 @@ class Gen:
         order = ["requires", "recommends", "ensures", "returns", "decreases", "no_unwind"]
         for kind in order:
             group = [cl for cl in clauses if cl.kind == kind]
-            if kind == "ensures" and self.vacuity and not c.external_body:
-                group = group + [Clause("ensures", ["VACUITY"], "false", f"{relsrc}#{key}#vacuity")]
             if group:
                 self.emit_clauses(group, ind, relsrc, key)
 
@@ -770,6 +772,43 @@ REGEX_REWRITES = [
 ]
 
 
+def lemma_vacuity(txt, name):
+    """vacuity variant of a lemma file: every `proof fn` body starts with `assert(false)`,
+    so a lemma that still verifies has a contradictory precondition or an inconsistent
+    context (line structure preserved)."""
+    toks = lex(txt)
+    edits = []
+    i = 0
+    n = len(toks)
+    while i < n:
+        t = toks[i]
+        if t.kind == "ident" and t.text == "proof":
+            j = i + 1
+            while toks[j].kind in ("ws", "comment", "doc"):
+                j += 1
+            if toks[j].text == "fn":
+                # find body open: first '{' at depth 0 after the parameter list
+                k = j
+                ens = None
+                while k < n:
+                    tk = toks[k]
+                    if tk.kind == "punct" and tk.text in "([":
+                        k = match_close(toks, k)
+                    elif tk.kind == "ident" and tk.text == "ensures" and ens is None:
+                        ens = k
+                    elif tk.kind == "punct" and tk.text == "{":
+                        break
+                    k += 1
+                if k >= n:
+                    raise ExtractError(f"{name}: cannot find body of proof fn")
+                edits.append((toks[k].start, toks[k].end, "{ assert(false);"))
+                i = match_close(toks, k)
+        i += 1
+    for s_, e_, rep in reversed(edits):
+        txt = txt[:s_] + rep + txt[e_:]
+    return txt
+
+
 def generate(repo, cdir, vacuity):
     g = Gen(repo, cdir, vacuity)
     g.emit("// GENERATED by /verif/extract/extract.py from the working tree of the repository.")
@@ -809,6 +848,8 @@ def generate(repo, cdir, vacuity):
         if name.startswith("lemmas_") and name.endswith(".rs"):
             with open(os.path.join(cdir, name)) as f:
                 txt = f.read()
+            if vacuity:
+                txt = lemma_vacuity(txt, name)
             for k, ln in enumerate(txt.split("\n")):
                 g.out.append(ln)
                 g.linemap.append({"file": "contracts/" + name, "line": k + 1})
